@@ -359,8 +359,9 @@ func Harness_channel_parse_file() {
 // runs at the producer's send (the schedule in which the consumer is quick); natively real
 // goroutines run.
 func Harness_channel_two_parsers() {
-	src := "d0:\n  apple: 150\n  pear: 2\nd1:\n  plum: 3\n"
-	other := "x0:\n  banana: 50\n  cherry: 7\nx1:\n  kiwi: 9\n"
+	src := "d0:\n  apple: 150\n  pear: 2\nd1:\n  plum: 3\nd2:\n  grape: 40\n  melon: 1\nd3:\n  fig: 6\nd4:\n  date: 12\n"
+	other := "x0:\n  banana: 50\n  cherry: 7\nx1:\n  kiwi: 9\nx2:\n  lemon: 11\n  lime: 13\nx3:\n  mango: 17\nx4:\n  nectarine: 19\n  orange: 23\nx5:\n  papaya: 29\n"
+	verifLabel("schedule", "the consumer reacts while the producer is at a send")
 	ref := &hRec{}
 	ParseStreamCallback(strings.NewReader(src), NewDefaultConfig(), ref.cb)
 	react := func() {
